@@ -154,6 +154,9 @@ func distinct(seqs [][]string) int {
 func harnessC12Levels() {
 	variant := verif.Pick("variant", 4)
 	k := verif.Len("k", 0, specDirK)
+	if variant >= 2 {
+		verif.Assume(k < specDirK) // the openings with an open directive need one token less for the same shapes
+	}
 	toks, _ := parser.VerifDirectiveTokens(k, variant)
 	parser.VerifSetLexer(toks)
 	s, err := Parse("f", nil)
